@@ -212,7 +212,7 @@ func report(r *ev.Run, t *result, ps []pass, workers int) {
 	r.Set("outcome_histogram", t.Outcomes)
 	r.Set("mutation_classes", t.Classes)
 	r.Set("mutation_classes_total", len(classes))
-	var nr []string
+	nr := []string{}
 	for c := range classes {
 		if !reached[c] {
 			nr = append(nr, c)
@@ -220,6 +220,18 @@ func report(r *ev.Run, t *result, ps []pass, workers int) {
 	}
 	sort.Strings(nr)
 	r.Set("classes_never_reaching_their_rule", nr)
+	{
+		// the wide pass repeats the narrow pass's mutants: list each once
+		seen := map[string]bool{}
+		uniq := []string{}
+		for _, l := range notReached {
+			if !seen[l] {
+				seen[l] = true
+				uniq = append(uniq, l)
+			}
+		}
+		notReached = uniq
+	}
 	if len(notReached) > 40 {
 		notReached = append(notReached[:40], fmt.Sprintf("... %d more", len(notReached)-40))
 	}
